@@ -195,3 +195,132 @@ pub fn replay_text(case: &Value, l: &mut Local) {
     let judged = vref::name::is_host_style(&r);
     run_text_case(&r, judged, l);
 }
+
+// ------------------------------------------------------------------------------------------
+// parse x origin shapes (extension round)
+
+pub fn origin_case_json(text: &str, origin: Option<&RefName>) -> Value {
+    json!({"family": "origin", "text": text, "origin": origin.map(name_json)})
+}
+
+/// `Name::parse(text, origin)` for a host-style local name (or the free-standing `@`) and one
+/// origin shape. RFC 1035 5.1: an absolute name is taken as is, a relative one is completed with
+/// the origin, `@` denotes the origin. Judged: an Ok result obeys the length limits and carries
+/// exactly the expected labels (case-insensitively: the IDNA path may lower-case) and, where
+/// defined, the absolute flag. Rejections are observations.
+pub fn run_origin_case(text: &str, local: Option<&RefName>, origin: Option<&RefName>, l: &mut Local) {
+    l.eval();
+    let case = || origin_case_json(text, origin);
+    let oh = match origin {
+        Some(o) => match build(o) {
+            Ok(h) => Some(h),
+            Err(_) => return,
+        },
+        None => None,
+    };
+    let lk = match local {
+        None => "at",
+        Some(r) if r.fqdn => "absolute",
+        Some(r) if r.labels.is_empty() => "empty",
+        Some(_) => "relative",
+    };
+    let ok = match origin {
+        None => "no-origin",
+        Some(o) if !o.fqdn => "relative-origin",
+        Some(o) if o.labels.is_empty() => "root-origin",
+        Some(_) => "absolute-origin",
+    };
+    let scene = format!("{lk}:{ok}");
+    // expectation
+    let (want_labels, want_flag): (Option<Labels>, Option<bool>) = match (local, origin) {
+        (None, Some(o)) => (Some(o.labels.clone()), Some(o.fqdn)),
+        (None, None) => (None, None),
+        (Some(r), _) if r.fqdn => (Some(r.labels.clone()), Some(true)),
+        (Some(r), None) => (Some(r.labels.clone()), Some(false)),
+        (Some(r), Some(o)) => {
+            let mut v = r.labels.clone();
+            v.extend(o.labels.iter().cloned());
+            (Some(v), if o.fqdn { Some(true) } else { None })
+        }
+    };
+    let res = catch(|| Name::parse(text, oh.as_ref()).map_err(|e| e.to_string()));
+    match res {
+        Err(p) => l.violation(&format!("panic:{}", vcore::short_loc(&p.loc)), &p.msg, case),
+        Ok(Err(_)) => {
+            let valid = want_labels.as_ref().map(|w| vref::name::validate(w).is_ok()).unwrap_or(false);
+            l.outcome(&format!("origin:{}:{scene}", if valid { "obs-rejects-valid" } else { "err" }));
+        }
+        Ok(Ok(n)) => {
+            let got = observe(&n);
+            match vref::name::validate(&got.labels) {
+                Err(vref::name::Invalid::LabelTooLong(_, x)) => {
+                    l.violation(&format!("limit:parse-origin-shapes:label-over-63:{scene}"), &format!("label of {x} octets"), case);
+                    return;
+                }
+                Err(vref::name::Invalid::NameTooLong(x)) => {
+                    l.violation(&format!("limit:parse-origin-shapes:name-over-255:{scene}"), &format!("wire length {x}"), case);
+                    return;
+                }
+                _ => {}
+            }
+            let Some(w) = want_labels else {
+                l.outcome(&format!("origin:obs-unjudged-ok:{scene}"));
+                return;
+            };
+            if !vref::name::labels_eq_fold(&got.labels, &w) {
+                l.violation(&format!("origin:content-mismatch:{scene}"), &format!("got {} want {}", vref::name::present_any(&got), vref::name::present_any(&RefName::new(w, true))), case);
+                return;
+            }
+            if let Some(f) = want_flag {
+                if got.fqdn != f {
+                    l.violation(&format!("origin:fqdn-flag:{scene}"), &format!("absolute flag is {} instead of {f}", got.fqdn), case);
+                    return;
+                }
+            }
+            l.outcome(&format!("origin:ok:{scene}"));
+            l.nontrivial(fnv64(text.as_bytes()) ^ fnv64(format!("{origin:?}").as_bytes()));
+        }
+    }
+}
+
+pub fn replay_origin(case: &Value, l: &mut Local) {
+    let text = case["text"].as_str().unwrap_or("").to_string();
+    let origin = if case["origin"].is_null() { None } else { Some(name_from_json(&case["origin"])) };
+    let local = if text == "@" { None } else { parse_host_text(&text) };
+    if text != "@" && local.is_none() {
+        return;
+    }
+    run_origin_case(&text, local.as_ref(), origin.as_ref(), l);
+}
+
+/// Inverse of `present_host` (reference side, for replays only).
+fn parse_host_text(t: &str) -> Option<RefName> {
+    if t == "." {
+        return Some(RefName::new(vec![], true));
+    }
+    let mut labels: Labels = vec![];
+    let mut cur: Vec<u8> = vec![];
+    let mut esc = false;
+    let mut last_sep = false;
+    for &c in t.as_bytes() {
+        last_sep = false;
+        if esc {
+            cur.push(c);
+            esc = false;
+        } else if c == b'\\' {
+            esc = true;
+        } else if c == b'.' {
+            if cur.is_empty() {
+                return None;
+            }
+            labels.push(std::mem::take(&mut cur));
+            last_sep = true;
+        } else {
+            cur.push(c);
+        }
+    }
+    if !cur.is_empty() {
+        labels.push(cur);
+    }
+    Some(RefName::new(labels, last_sep))
+}
